@@ -112,7 +112,7 @@ impl IoError for DevErr {
     }
 }
 
-pub(crate) const LOG_N: usize = 16;
+pub(crate) const LOG_N: usize = 24;
 
 #[derive(Clone, Copy, PartialEq, Eq, Debug)]
 pub(crate) enum Op {
